@@ -18,6 +18,7 @@ import GM.Gen.RenderFacts
 import GM.Proof.UrlBytes
 import GM.Proof.UrlSafe
 import GM.Props.ConvertE2E
+import GM.Props.ConvertE2EAll
 
 namespace GM.Props.C04
 open GM GM.Spec
@@ -154,5 +155,15 @@ theorem convert_safe_urls_harmless_tokens : type_of% @GM.Props.ConvertE2E.conver
 /-- (re-export of `GM.Props.ConvertE2E.render_safe_urls_harmless_tokens`) the renderer half of it for EVERY tree with `Spec.Inv`, every option / extension set (footnote `href="#…"` included):
     C04 at token level for the renderer model, not only for parser output -/
 theorem render_safe_urls_harmless_tokens : type_of% @GM.Props.ConvertE2E.render_safe_urls_harmless_tokens := @GM.Props.ConvertE2E.render_safe_urls_harmless_tokens
+
+/-- (re-export of `GM.Props.ConvertE2EAll.convert_safe_urls_harmless_total`) **`convert_safe_urls_harmless_total`** — C04 END TO END at TOKEN level, no hypothesis on the source: in safe mode `convertCore`
+    answers HTML that the strict tokenizer accepts, and `Spec.urlsOK lookupEntity` holds of its tokens — every `href` / `src`
+    value of every start tag, read the way a browser reads it (`Spec.hrefDangerous`: decode character references, trim, strip
+    tab / CR / LF, read the scheme), is harmless. -/
+theorem convert_safe_urls_harmless_total : type_of% @GM.Props.ConvertE2EAll.convert_safe_urls_harmless_total := @GM.Props.ConvertE2EAll.convert_safe_urls_harmless_total
+
+/-- (re-export of `GM.Props.ConvertE2EAll.convert_safe_urls_harmless_pieces_total`) the piece-level form: every destination-carrying piece stands at an `href=` / `src=` attribute site, its value has no `"`
+    and is not dangerous -/
+theorem convert_safe_urls_harmless_pieces_total : type_of% @GM.Props.ConvertE2EAll.convert_safe_urls_harmless_pieces_total := @GM.Props.ConvertE2EAll.convert_safe_urls_harmless_pieces_total
 
 end GM.Props.C04
